@@ -138,8 +138,37 @@ def _eval(case):
                                  "FT of delta_%d*%s on %s time axis N=%d differs from the "
                                  "direct Fourier sum by %g (dt=%g)"
                                  % (k, phase, case["atype"], N, err, dt), {"k": k}))
+            # the rarely used window option: FT(f, window=W) is the FT of f*W (W with
+            # pairwise different values != 1, so every index is told apart)
+            if case["dir"] == "t":
+                Wv = 1.0 - (numpy.arange(N) + 1.0) / (2.0 * N + 3.0)
+                Fw = f.get_Fourier_transform(window=qr.DFunction(ax, Wv.copy()))
+                Fr = qr.DFunction(ax, y * Wv).get_Fourier_transform()
+                okw, errw = approx(Fw.data, Fr.data, TOL, scale=dt)
+                if not okw:
+                    viol.append(("ft-window/%s" % tag,
+                                 "FT(delta_%d*%s, window=W) differs from FT(delta*W) by %g (N=%d)"
+                                 % (k, phase, errw, N), {"k": k}))
             # round trip
+            Fkeep = numpy.array(F.data, copy=True)
             g = F.get_inverse_Fourier_transform()
+            # SECOND USE of the same objects: a transform is a function of its argument, which
+            # it must leave alone - the same call again gives the same function
+            g_again = F.get_inverse_Fourier_transform()
+            F_again = f.get_Fourier_transform()
+            if not numpy.array_equal(numpy.asarray(f.data), y) or \
+                    not numpy.array_equal(numpy.asarray(F.data), Fkeep):
+                viol.append(("transform-changed-its-argument/%s" % tag,
+                             "the data of the transformed function changed (delta_%d*%s, N=%d): "
+                             "|d f|=%g |d F|=%g" % (k, phase, N,
+                                                    float(numpy.max(numpy.abs(f.data - y))),
+                                                    float(numpy.max(numpy.abs(F.data - Fkeep)))),
+                             {"k": k}))
+            if not approx(g_again.data, g.data, TOL, scale=1.0)[0] or \
+                    not approx(F_again.data, Fkeep, TOL, scale=dt)[0]:
+                viol.append(("second-transform-of-same-object-differs/%s" % tag,
+                             "transforming the same object a second time gives another function "
+                             "(delta_%d*%s, N=%d)" % (k, phase, N), {"k": k}))
             badax = _same_axis(ax, g.axis)
             ok, err = approx(g.data, y, TOL, scale=1.0)
             worst_rt = max(worst_rt, err if numpy.isfinite(err) else 1e300)
